@@ -144,6 +144,15 @@ def gen_program(rng):
             comps["Comp.prop"] = dict(params=[], ctor=cps, path=["prop"])
         src += "    def _private(self, zz: int = 0):\n        CALLS.append(('Comp._private', {}))\n"
         entry = "Comp"
+        nest = rng.choice([None, None, "list", "dict"])
+        if nest:
+            # the class is one of several components: its methods are subcommands of a subcommand
+            src += "def fx(q: int = 0):\n    CALLS.append(('fx', {'q': q}))\n    return 'ret:fx'\n"
+            prefix = ["Comp"] if nest == "list" else ["grp", "tool"]
+            entry = "[fx, Comp]" if nest == "list" else "{'grp': {'tool': Comp, 'fx': fx}, 'fy': fx}"
+            for c in comps.values():
+                c["prefix"] = prefix
+            kind = "class_in_" + nest
     return kind, src, comps, entry
 
 
@@ -225,9 +234,22 @@ def case(ctx, i, rng):
         if ctor is not None and cfgm:
             cfg_all[sub[0]] = dict(cfgm)
             cfgm = {}
+        decoys = []
+        if ctor is not None and rng.random() < 0.5:
+            # settings for the other methods too: the method named on the command line is the one that runs, with its own settings
+            for other, oc in comps.items():
+                if other != label and oc.get("params"):
+                    _, _, _, ocfg = choose_values(rng, oc["params"], False)
+                    if ocfg:
+                        cfg_all[oc["path"][0]] = dict(ocfg)
+                        decoys.append(oc["path"][0])
+        prefix = comp.get("prefix", [])
         argv_tail = list(sub) + pos + opts
         cfg_args = []
         cfg = dict(cfg_all)
+        if cfg:
+            for k in reversed(prefix):
+                cfg = {k: cfg}
         if cfgm:
             # config for a plain function / function in a list goes after the subcommand name
             mcfg = dict(cfgm)
@@ -240,11 +262,15 @@ def case(ctx, i, rng):
                 cfg_args = ["--config", cpath]
             else:
                 cfg_args = [f"--config={json.dumps(cfg)}"]
-        full = cfg_args + argv + argv_tail
+        full = cfg_args + prefix + argv + argv_tail
+        if decoys:
+            ctx.count("st.config_with_settings_for_several_methods")
+        if prefix and decoys and cfg_all.get(sub[0]):
+            ctx.count("st.nested_class_config_for_chosen_and_other_methods")
         mod.CALLS.clear()
         comp_obj = eval(entry, vars(mod))
         o = call(auto_cli, comp_obj, args=full, as_positional=as_positional, exit_on_error=False)
-        ctx.evaluation(("c12", kind, label.split(".")[-1] if kind != "class" else "method", tuple((p["ann"], p["default"] is not None, p["kwonly"]) for p in comp["params"]), as_positional, bool(cfg_args)))
+        ctx.evaluation(("c12", kind, label.split(".")[-1] if not kind.startswith("class") else "method", tuple((p["ann"], p["default"] is not None, p["kwonly"]) for p in comp["params"]), as_positional, bool(cfg_args)))
         ctx.count("mon.invocations")
         ctx.count(f"st.kind.{kind}")
         for p in comp["params"] + (ctor or []):
